@@ -405,12 +405,14 @@ def main():
         run = Run(prop, os.environ.get("VERIF_TIER", "quick"), seed)
         race = bool(run.plan.get("replay_race"))
         binary = build(prop, run.plan, race=race)
-        try:
-            with open(path) as f:
-                rec = json.load(f)
-        except (OSError, ValueError) as e:
-            log("cannot read replay file: %s" % e)
-            sys.exit(2)
+        rec = None
+        if not os.path.isdir(path):
+            try:
+                with open(path) as f:
+                    rec = json.load(f)
+            except (OSError, ValueError) as e:
+                log("cannot read replay file: %s" % e)
+                sys.exit(2)
         case = rec.get("case") if isinstance(rec, dict) else None
         if isinstance(case, dict) and "go_fuzz_input" in case:
             sys.exit(replay_fuzz(run, case))
